@@ -40,6 +40,8 @@ def _construct(bounded, cap=12):
     log = []
     rel = "include/parmcb/detail/approx_spanner.hpp"
     text = X.src(rel)
+    text = X.body_after(text, r"\bvoid construct_spanner\(\)\s*", "construct_spanner")
+    text = X.inline_temps(X.canon(text, [(r"EdgeVectorIt (\w+), (\w+);", ["ei", "ei_end"])], log), log)
     loop = X.stmt_after(text, r"EdgeVectorIt ei, ei_end;", r"\bfor\s*\(", "edge loop of construct_spanner")
     loop = X.rewrite(loop, [
         (r"ei = sorted_edges\.begin\(\), ei_end = sorted_edges\.end\(\)", "ei = 0, ei_end = vp_m", 1, "container-api", "vector iterators = positions"),
